@@ -156,9 +156,12 @@ def discharge(ob: Obligation, z3_ms=None):
             return ("sat", "z3-bounded-model", dt, mv, "")
     # unknown -> cvc5
     smt = s.to_smt2().replace("seq.nth_i", "seq.nth").replace("seq.nth_u", "seq.nth")
-    st, dt2 = run_cvc5(smt)
+    names = [n for n in consts if "!" not in n and "#" not in n and "." not in n and not z3.is_array(consts[n])]
+    st, dt2, cmodel = run_cvc5(smt, names)
     if st == "unsat":
         return ("unsat", "cvc5", dt + dt2, None, "")
+    if st == "sat":
+        return ("sat", "cvc5", dt + dt2, cmodel, "")
     # one more z3 try with a different tactic / longer budget
     s2 = z3.Solver()
     s2.set("timeout", z3_ms * 4)
@@ -185,11 +188,17 @@ def discharge(ob: Obligation, z3_ms=None):
     return ("unknown", "z3+cvc5", dt + dt2 + dt3, None, f"z3: {reason}; cvc5: {st}")
 
 
-def run_cvc5(smt2: str):
+def run_cvc5(smt2: str, names=()):
+    """-> (status, seconds, model dict | None).  z3's (check-sat) is replaced so that a model can be asked for."""
     t0 = time.time()
+    model = None
     try:
+        body = smt2.replace("(check-sat)", "")
+        q = "(set-logic ALL)\n(set-option :produce-models true)\n" + body + "\n(check-sat)\n"
+        if names:
+            q += "(get-value (" + " ".join(f"|{n}|" if not n.isidentifier() else n for n in names) + "))\n"
         with tempfile.NamedTemporaryFile("w", suffix=".smt2", delete=False) as fd:
-            fd.write("(set-logic ALL)\n" + smt2)
+            fd.write(q)
             path = fd.name
         try:
             p = subprocess.run(
@@ -198,11 +207,37 @@ def run_cvc5(smt2: str):
             )
             out = p.stdout.strip().splitlines()
             st = out[0] if out else "error"
+            if st == "sat" and len(out) > 1:
+                model = parse_cvc5_values("\n".join(out[1:]))
         finally:
             os.unlink(path)
     except Exception as e:  # noqa: BLE001
         st = f"error:{type(e).__name__}"
-    return st, time.time() - t0
+    return st, time.time() - t0, model
+
+
+def parse_cvc5_values(text):
+    """Best-effort reading of `(get-value ...)`: ints, bools and sequences of ints."""
+    import re
+
+    out = {}
+    for m in re.finditer(r"\(\|?([^\s|()]+)\|?\s+((?:\((?:[^()]|\([^()]*\))*\))|[^\s()]+)\)", text):
+        name, val = m.group(1), m.group(2)
+        if val in ("true", "false"):
+            out[name] = val == "true"
+        elif re.fullmatch(r"-?\d+", val):
+            out[name] = int(val)
+        elif re.fullmatch(r"\(- \d+\)", val):
+            out[name] = -int(val[3:-1])
+        elif "seq" in val:
+            cps = [int(x) for x in re.findall(r"\(seq\.unit (\d+)\)", val)]
+            if cps or "seq.empty" in val or "as seq.empty" in val:
+                out[name] = {"str": "".join(chr(c) for c in cps if 0 <= c <= 0x10FFFF), "codepoints": cps}
+            else:
+                out[name] = {"term": val[:200]}
+        else:
+            out[name] = {"term": val[:200]}
+    return out or None
 
 
 class FunctionResult:
@@ -293,7 +328,7 @@ def verify_contract(repo_root: str, target: str, z3_ms=None, budget_s=600.0) -> 
             if st == "sat":
                 rec["status"] = "sat"
                 res.violations.append({"oid": ob.oid, "case": ob.case, "path": ob.path, "model": model, "note": ob.note,
-                                       "goal": str(ob.goal)[:400]})
+                                       "goal": str(ob.goal)[:400], "imprecise": ob.imprecise, "backend": backend})
             elif st == "unknown":
                 if rec["status"] != "sat":
                     rec["status"] = "unknown"
@@ -362,7 +397,7 @@ def run_one_path(ex: Exec, repo, c: Contract, mod, node, case, res: FunctionResu
     finally:
         ex.depth = 0
     # vacuity guard: the assumptions collected along a completed path must be satisfiable
-    if ex.check_sat([], 5000) == z3.unsat:
+    if not ex.unknown_feasibility and ex.check_sat([], 5000) == z3.unsat:
         raise Unsupported(f"path {ex.path_id or '-'} completes under contradictory assumptions (engine axiom or callee contract inconsistent)")
     if outcome[0] == "return":
         res.normal_paths += 1
